@@ -106,11 +106,18 @@ theorem lift_blocks_partial (ref : Seq) (v : Var) (st : Strand) (bs : List Blk) 
     exception when nothing remains (F-C13b — the property wants the EmptyLocation). -/
 theorem lift_single_block (ref : Seq) (v : Var) (b : Blk) (st : Strand) (hv : v.s < v.e) (hvn : v.e ≤ ref.length)
     (hb : b.1 < b.2) (hbn : b.2 ≤ ref.length) (hc : Clean v b) :
-    lift1 .whole ref v (.single b st) =
+    lift1 false .whole ref v (.single b st) =
       (match nonEmpty (imageBlock ref [toEdit 0 v] b) with
        | some ib => .ok (.single ib st)
        | none => .error .EmptyLocation) :=
   lift1_single_clean ref v b st hv hvn hb hbn hc
+
+/-- T3b as a verdict of the specification's checker: strand, normalised blocks and the bases read all pass `okLift` -/
+theorem lift_single_block_verdict (ref : Seq) (v : Var) (b ib : Blk) (st : Strand) (hst : st ≠ .unstranded)
+    (hv : v.s < v.e) (hvn : v.e ≤ ref.length) (hb : b.1 < b.2) (hbn : b.2 ≤ ref.length) (hc : Clean v b)
+    (hne : nonEmpty (imageBlock ref [toEdit 0 v] b) = some ib) :
+    okLift ref [toEdit 0 v] st [b] (some (some ⟨st, [ib], onStrand st (slice (altSeq1 0 ref v) ib)⟩)) = .pass :=
+  lift1_single_verdict ref v b ib st hst hv hvn hb hbn hc hne
 
 /-! ### T5 — collections: sequential ascending application -/
 
@@ -131,7 +138,7 @@ def v2 : Var := ⟨13, 15, ['A', 'G', 'G']⟩
     [13,23) (it compares the block, already shifted to 13, with the second variant's reference interval); the image of
     the block is [14,23), and the specification's checker rejects the answer. -/
 theorem sequential_application_defect_witness :
-    liftN .whole refW [v1, v2] (.single (15, 24) .plus) = .ok (.single (13, 23) .plus)
+    liftN false .whole refW [v1, v2] (.single (15, 24) .plus) = .ok (.single (13, 23) .plus)
     ∧ imageBlock refW [toEdit 0 v1, toEdit 0 v2] (15, 24) = (14, 23)
     ∧ okLift refW [toEdit 0 v1, toEdit 0 v2] .plus [(15, 24)]
         (some (some ⟨.plus, [(13, 23)], slice (altSeqN 0 refW [v1, v2]) (13, 23)⟩)) = .fail := by
@@ -140,10 +147,17 @@ theorem sequential_application_defect_witness :
 /-- F-C13b witness: a block inside the deleted part of an unpadded deletion; the code raises, the property wants the
     EmptyLocation (the checker's verdict is the dedicated `failDeletedRaises`). -/
 theorem deleted_location_raises_witness :
-    lift1 .whole refW ⟨2, 6, []⟩ (.single (3, 5) .plus) = .error .EmptyLocation
+    lift1 false .whole refW ⟨2, 6, []⟩ (.single (3, 5) .plus) = .error .EmptyLocation
     ∧ okLift refW [⟨2, 6, []⟩] .plus [(3, 5)] none = .failDeletedRaises
     ∧ okLift refW [⟨2, 6, []⟩] .plus [(3, 5)] (some none) = .pass := by
   refine ⟨by rfl, by decide, by decide⟩
+
+/-- the proposed repairs (descending order; EmptyLocation returned as it is) give, on the two witnesses, the answers
+    the property demands -/
+theorem repairs_fix_witnesses :
+    liftN true .whole refW [v1, v2] (.single (15, 24) .plus) = .ok (.single (14, 23) .plus)
+    ∧ lift1 true .whole refW ⟨2, 6, []⟩ (.single (3, 5) .plus) = .ok .empty := by
+  refine ⟨by rfl, by rfl⟩
 
 /-! ### T4 — VCF records: one variant per alternative allele (grouping itself: correspondence + `okVcf`) -/
 
@@ -167,7 +181,7 @@ example : CleanAll refW.length v1 [(0, 8), (10, 12), (20, 26)] := by
   simp only [List.mem_cons, List.mem_nil_iff, or_false] at hb
   rcases hb with rfl | rfl | rfl <;> decide
 example : Clean ⟨2, 6, []⟩ (2, 6) ∧ nonEmpty (imageBlock refW [toEdit 0 ⟨2, 6, []⟩] (2, 6)) = none := by decide
-example : lift1 .whole refW v1 (.single (15, 24) .minus) = .ok (.single (13, 22) .minus) := by rfl
+example : lift1 false .whole refW v1 (.single (15, 24) .minus) = .ok (.single (13, 22) .minus) := by rfl
 example : okLift refW [toEdit 0 v1] .minus [(15, 24)]
     (some (some ⟨.minus, [(13, 22)], (slice (altSeq1 0 refW v1) (13, 22)).reverse.map complement⟩)) = .pass := by decide
 
